@@ -87,6 +87,13 @@ Proof.
   - cbn [f_heap0]. lia.
   - constructor.
   - constructor.
+  - cbn [f_marked f_cache]. intros p Hm [o Hc].
+    assert (Hnone : dget p pm = None).
+    { rewrite <- Hpm. rewrite dget_ddel_all. apply zmem_In in Hm. now rewrite Hm. }
+    split; [exact Hnone|]. split; [|intros []].
+    intros po Hi. apply Hin in Hi as [[o2 [He Hg]]|[He Hi]]; [congruence|].
+    unfold new in Hi. apply filter_In in Hi as [_ Hn]. apply negb_true_iff in Hn. apply zmem_false in Hn.
+    apply Hn. unfold b. apply dkeys_In. now exists o.
 Qed.
 Transparent nodup.
 
@@ -135,6 +142,7 @@ Proof.
   - pose proof (j_h0 _ _ _ _ _ _ _ _ H). lia.
   - apply (j_ysorted _ _ _ _ _ _ _ _ H).
   - apply (j_yok _ _ _ _ _ _ _ _ H).
+  - apply (j_mc _ _ _ _ _ _ _ _ H).
 Qed.
 
 (* a state change that keeps every listed PID alive, never shrinks the token counter and
@@ -150,22 +158,13 @@ Proof.
 Qed.
 
 (* ---------------------------------------------------------------- resuming a generator *)
-Definition gnext (gh : ghost) (o : out) : ghost :=
-  match o with
-  | OYield p ob i => gh_push gh (p, ob, i)
-  | OStop => gh_finish gh true
-  | OExc _ => gh_finish gh false
-  | OOom => gh_finish gh false
-  | _ => gh
-  end.
-
 Lemma run_loop_inv valid s g a pm rest gh :
   gh_attrs gh = a -> gh_started gh = true -> gh_done gh = false ->
   J valid (tbl s) (frame_of gh) (gh_vanished gh) pm rest (gh_yields gh) (nobj s) ->
   let r := run_loop valid s g a pm rest in
   tbl (fst r) = tbl s /\ (nobj s <= nobj (fst r))%nat /\ ngen (fst r) = ngen s /\
   (forall g', g' <> g -> gens (fst r) g' = gens s g') /\
-  ginv valid (fst r) (gens (fst r) g) (gnext gh (snd r)) /\
+  ginv valid (fst r) (gens (fst r) g) (gh_after s gh (snd r)) /\
   (snd r = OStop \/ (exists e, snd r = OExc e) -> Jfin valid (frame_of gh) (pmap (fst r)) (gh_yields gh)) /\
   (forall e, snd r = OExc e -> e = ValueError /\ exists l, a = Some l /\ attrs_valid valid l = false) /\
   (snd r <> ONone /\ snd r <> OBad /\ (forall l, snd r <> OPids l) /\ (forall b, snd r <> OBool b)) /\
@@ -183,7 +182,7 @@ Proof.
             o0 <> ONone /\ o0 <> OBad /\ (forall l, o0 <> OPids l) /\ (forall b, o0 <> OBool b)).
   { intros o0 [[p [ob [i H]]]|[H|[[e H]|H]]]; subst o0; repeat split; intros; discriminate. }
   destruct (gen_loop (tbl s) valid a _ rest) as [x' rest' p o i|x'|x' e|x']; cbn [loop_post] in HL;
-    cbn [fst snd mk tbl nobj ngen gens pmap gnext].
+    cbn [fst snd mk tbl nobj ngen gens pmap gh_after].
   - destruct HL as [HJ' Hn].
     split; [reflexivity|]. split; [exact Hn|]. split; [reflexivity|].
     split; [intros g' Hne; now apply Hother|].
@@ -282,7 +281,7 @@ Lemma next_inv valid s G g :
   (forall x, snd r = OExc x ->
      (x = ValueError /\ exists l, gh_attrs (G g) = Some l /\ attrs_valid valid l = false)
      \/ (x = IndexError /\ tbl s = [])) /\
-  (gh_done (G g) = false -> gh_done (G' g) = true -> snd r <> OOom -> tbl s <> [] ->
+  (gh_done (G g) = false -> gh_done (G' g) = true -> snd r <> OOom -> (tbl s <> [] \/ snd r = OStop) ->
      Jfin valid (frame_of (G' g)) (pmap (fst r)) (gh_yields (G' g))) /\
   (snd r <> ONone /\ snd r <> OBad /\ (forall l, snd r <> OPids l) /\ (forall b, snd r <> OBool b)) /\
   (forall p ob i, snd r = OYield p ob i -> pmap (fst r) = pmap s).
@@ -309,7 +308,7 @@ Proof.
         rewrite Hat. now split. }
       split.
       { intros _ Hd Hoom _. rewrite gset_same in *.
-        destruct (snd (run_loop valid s1 g a pm ls)) eqn:Eo; cbn [gnext gh_push gh_finish gh_done gh_enter] in Hd;
+        destruct (snd (run_loop valid s1 g a pm ls)) eqn:Eo; cbn [gh_after gh_push gh_finish gh_done gh_enter] in Hd;
           try discriminate.
         - apply Hfin. now left.
         - apply Hfin. right. now exists e.
@@ -322,7 +321,7 @@ Proof.
           split; [split; constructor|discriminate].
         - rewrite gset_other, set_gen_other by exact Hne. apply (HI g'). }
       split; [intros x Hx; injection Hx as Hx; subst x; right; now split|].
-      split; [intros _ _ _ Hne; contradiction|].
+      split; [intros _ _ _ [Hne|Hne]; [contradiction|discriminate]|].
       split; [repeat split; intros; discriminate|]. intros; discriminate.
     + exfalso. exact (gen_start_oom _ _ _ Es).
   - (* resumed *)
@@ -340,7 +339,7 @@ Proof.
       rewrite Hat. now split. }
     split.
     { intros _ Hd Hoom _. rewrite gset_same in *.
-      destruct (snd (run_loop valid s g a pm rest)) eqn:Eo; cbn [gnext gh_push gh_finish gh_done] in Hd;
+      destruct (snd (run_loop valid s g a pm rest)) eqn:Eo; cbn [gh_after gh_push gh_finish gh_done] in Hd;
         try congruence.
       - apply Hfin. now left.
       - apply Hfin. right. now exists e. }
